@@ -23,11 +23,16 @@ if ! cargo +nightly fuzz build --fuzz-dir "$FZ" c01_totality >"$T/build.log" 2>&
 fi
 BIN=$(ls "$FZ"/target/*/release/c01_totality 2>/dev/null | head -1)
 [ -x "$BIN" ] || { echo "INCONCLUSIVE: fuzz binary not found" >&2; exit 2; }
-( cd "$T" && "$BIN" corpus -runs="$RUNS" -seed="$SEED" -max_len=2048 -len_control=0 -timeout=60 -rss_limit_mb=4096 \
-    -dict="$FZ/sass.dict" -artifact_prefix="$T/artifacts/" -detect_leaks=0 -jobs=16 -workers=16 -print_final_stats=1 >"$T/fuzz.log" 2>&1 )
+# 48 jobs on 16 workers: a job that dies on a (known) stack overflow is replaced by the next one
+JOBS=48; PER=$(( RUNS * 16 / JOBS )); mkdir -p "$T/stats"; export VERIF_FUZZ_STATS="$T/stats"
+# the interner is a process-lifetime static: no leak reports (in the loop or at exit)
+export ASAN_OPTIONS=detect_leaks=0
+( cd "$T" && "$BIN" corpus -runs="$PER" -seed="$SEED" -max_len=2048 -len_control=0 -timeout=60 -rss_limit_mb=4096 \
+    -dict="$FZ/sass.dict" -artifact_prefix="$T/artifacts/" -detect_leaks=0 -jobs=$JOBS -workers=16 -print_final_stats=1 >"$T/fuzz.log" 2>&1 )
 EXECS=$(cat "$T"/fuzz-*.log 2>/dev/null | grep -a "stat::number_of_executed_units" | awk '{s+=$2} END {print s+0}')
-echo "fuzz campaign: $EXECS executions, corpus $(ls "$T/corpus" | wc -l) files, $(ls "$T/artifacts" | wc -l) artifacts"
-rc=0
+STATS=$(cat "$T"/stats/stats.* 2>/dev/null | awk '{e+=$1;d+=$2;l+=$3;r+=$4;c+=$5} END {printf "%d %d %d %d %d", e,d,l,r,c}')
+echo "fuzz campaign: $EXECS executions (sampled counters: execs/excluded-depth/excluded-loops/excluded-possible-recursion/compiled = $STATS), corpus $(ls "$T/corpus" | wc -l) files, $(ls "$T/artifacts" | wc -l) artifacts"
+rc=0; : > "$T/known.txt"
 for a in "$T"/artifacts/*; do
     [ -f "$a" ] || continue
     python3 - "$a" "$T/replay.json" <<'PY'
@@ -41,11 +46,16 @@ case={"class":"fuzz-artifact","text":text,"syntax":syn,"style":"Expanded","quiet
 json.dump({"property":"C01","case":case},open(sys.argv[2],'w'))
 PY
     [ $? -eq 0 ] || continue
-    if "$ROOT/harness/target/release/vp" replay "$T/replay.json" | grep -q "^VIOLATION"; then
+    out=$(VP_REPLAY_KNOWN=1 "$ROOT/harness/target/release/vp" replay "$T/replay.json")
+    if echo "$out" | grep -q "^VIOLATION"; then
         mkdir -p "$ROOT/replays/C01"; dst="$ROOT/replays/C01/fuzz-$(basename "$a").json"; cp "$T/replay.json" "$dst"
-        # known findings are matched by the normal C01 run; here anything that still fails is reported
         echo "VIOLATION property=C01 replay=$dst"; rc=1
+    else
+        # artifacts whose failure is a listed known finding: one line per finding, with a count
+        echo "$out" | grep "^KNOWN-FINDING" >> "$T/known.txt"
     fi
 done
+sort "$T/known.txt" | uniq -c | while read n line; do echo "$line [$n fuzz artifacts]"; done
 echo "$EXECS" > "$T/executions"
+echo "$STATS" > "$T/counters"
 exit $rc
